@@ -430,6 +430,7 @@ class Worker:
                 # When a task is cancelled on the worker it is not removed
                 # from the ready queue because it is much cheaper to just
                 # discard cancelled tasks as they come out.
+                self._discard_task(addr)
                 continue
 
             task = self._tasks[addr]
@@ -439,10 +440,24 @@ class Worker:
                 # then discard this one too. Each breadcrumb (bcb) is a
                 # task address (unique system-wide task id) of an ancestor
                 # task.
-                # TODO: do I need to manually remove addr from self._tasks?
+                self._discard_task(addr)
                 continue
 
             return task
+
+    def _discard_task(self, addr: RuntimeAddress) -> None:
+        """
+        Forget a task that arrived after it (or an ancestor) was cancelled.
+
+        `_handle_cancel` only removes tasks already on this worker. A task
+        submitted before the cancel but delivered after it is added to the
+        task table on arrival and must be dropped here when it is discarded.
+        """
+        task = self._tasks.pop(addr, None)
+        if task is not None:
+            task.cancel()
+            for mailbox_id in task.owned_mailboxes:
+                self._mailboxes.pop(mailbox_id, None)
 
     def _try_step_next_ready_task(self) -> None:
         """Select a task to run, and advance it one step."""
